@@ -396,15 +396,22 @@ package table
 // from C10: "policies and statements in order; ... the first accept/reject decides"
 //@ func (*Policy).Apply
 //@   requires p != nil
-//@   claims step at-return
+//@   claims step at-return at-call inv-init inv-keep
 //@   loop 0 step result == ROUTE_TYPE_NONE
+// from C10: "modifications accumulate": the first statement sees the route as given, every later one the route as
+// left by the statements before it
+//@   loop 0 invariant __iter == -1 ==> path == path0
+//@   at-call stmt.Apply( requires arg2 == path
 //@   at-return requires ret0 != ROUTE_TYPE_NONE ==> ret0 == result
 
 // from C10: "otherwise the assignment's default applies"; reject yields no route
 //@ func (*RoutingPolicy).ApplyPolicy
 //@   requires r != nil
-//@   claims at-call at-return step
+//@   claims at-call at-return step inv-init inv-keep
 //@   loop 0 step result == ROUTE_TYPE_NONE
+// from C10: "modifications accumulate" across the policies of an assignment
+//@   loop 0 invariant __iter == -1 ==> after == before
+//@   at-call p.Apply( requires arg2 == after
 //@   at-call r.getDefaultPolicy( requires result == ROUTE_TYPE_NONE
 //@   at-return requires before == nil ==> ret0 == nil
 //@   at-return requires before != nil && !old(before.IsWithdraw) ==> (result == ROUTE_TYPE_ACCEPT ==> ret0 == after) && (result != ROUTE_TYPE_ACCEPT ==> ret0 == nil)
